@@ -109,6 +109,17 @@ def used_params(prog):
     return sorted(seen)
 
 
+def has_param(e):
+    found = []
+
+    def f(x):
+        if x[1] in PARAMS:
+            found.append(x[1])
+        return x
+    map_expr(e, f)
+    return bool(found)
+
+
 # ---- degree bound of E[M]_n as a polynomial in one parameter (from the source text) ----------
 class NotPolynomial(Exception):
     pass
@@ -250,7 +261,7 @@ def corpus():
     # 1. parameter only in the initial value; contraction
     out.append((prog([A("x", v("p"))], [A("x", add(mul(c(F(1, 2)), v("x")), c(1)))]), [{"x": 1}, {"x": 2}], "init-param"))
     # 2. parameter as coefficient (closed form has p**n) and in the initial value
-    out.append((prog([A("x", v("p"))], [A("x", add(mul(v("p"), v("x")), c(1)))]), [{"x": 1}], "coeff-param+init-param"))
+    out.append((prog([A("x", v("p"))], [A("x", add(mul(v("p"), v("x")), c(1)))]), [{"x": 1}], "coeff-param+init-param+symbolic-base"))
     # 3. Bernoulli parameter, accumulator, second moment and mixed moment
     out.append((prog([A("x", c(0)), A("f", c(0))],
                      [("assign", "f", ("draw", ("bern", v("p")))), A("x", add(v("x"), v("f")))]),
@@ -278,12 +289,12 @@ def corpus():
     out.append((prog([A("s", c(0)), A("x", c(0))],
                      [("assign", "s", ("draw", ("bern", v("p")))), A("x", add(v("x"), c(1)))],
                      guard=("atom", v("s"), "==", c(0))),
-                [{"x": 1}, {"x": 2}], "guard+bernoulli-param"))
+                [{"x": 1}, {"x": 2}], "guard+bernoulli-param+symbolic-base"))
     # 9. categorical with parameter, value used as coefficient
     out.append((prog([A("k", c(0)), A("x", c(1))],
                      [("assign", "k", ("draw", ("cat", [v("p"), sub(c(1), v("p"))]))),
                       A("x", add(mul(v("k"), v("x")), c(1)))]),
-                [{"x": 1}], "categorical-param"))
+                [{"x": 1}], "categorical-param+symbolic-base"))
     # 10. cyclic system (swap) with parameter
     out.append((prog([A("x", c(1)), A("y", v("q"))],
                      [("simult", [("x", P.det(add(v("y"), v("p")))), ("y", P.det(v("x")))])]),
@@ -293,7 +304,7 @@ def corpus():
                      [("assign", "f", ("choice", [(v("p"), c(1)), (sub(c(1), v("p")), c(0))])),
                       ("if", [(("atom", v("f"), "==", c(1)), [A("w", add(v("w"), v("q")))])], None),
                       ("assign", "x", ("choice", [(c(F(1, 2)), add(v("x"), v("w"))), (c(F(1, 2)), mul(v("p"), v("x")))]))]),
-                [{"x": 1}, {"w": 2}], "choice-param+values"))
+                [{"x": 1}, {"w": 2}], "choice-param+values+symbolic-base"))
     # 12. initial value drawn with parameter, body parameter-free
     out.append((prog([("assign", "x", ("choice", [(v("p"), c(2)), (sub(c(1), v("p")), c(0))])), A("y", c(0))],
                      [A("y", add(v("y"), v("x"))), A("x", mul(c(F(1, 2)), v("x")))]),
@@ -347,25 +358,36 @@ class SG:
                 e = c(rng.choice([0, 1, 2, -1]))
             init.append(("assign", a, P.det(e)))
         body = []
+        fin_dep = set()
         for i, f in enumerate(fin):
             r = rng.random()
+            pr = self.prob()
             if r < 0.45:
-                st = ("assign", f, ("draw", ("bern", self.prob())))
+                st = ("assign", f, ("draw", ("bern", pr)))
                 self.features.add("bernoulli")
             elif r < 0.6:
-                pr = self.prob()
                 st = ("assign", f, ("draw", ("cat", [pr, sub(c(1), pr)])))
                 self.features.add("categorical")
             else:
-                pr = self.prob()
                 st = ("assign", f, ("choice", [(pr, c(1)), (sub(c(1), pr), c(0))]))
                 self.features.add("choice")
+            if has_param(pr):
+                fin_dep.add(f)
             if i > 0 and rng.random() < 0.5:
                 self.features.add("finite-under-condition")
                 st = ("if", [(("atom", v(fin[0]), "==", c(rng.choice([0, 1]))), [st])], [("assign", f, P.det(c(0)))])
+                if fin[0] in fin_dep:
+                    fin_dep.add(f)
             body.append(st)
         for i, a in enumerate(acc):
-            terms = [mul(self.coef() if rng.random() < 0.5 else c(rng.choice([1, F(1, 2)])), v(a))]
+            if rng.random() < 0.12 and self.budget > 0:
+                self.budget -= 1
+                self.features.add("symbolic-base")
+                selfc = None
+                terms = [mul(self.par(), v(a))]
+            else:
+                selfc = rng.choice([1, 1, 1, F(1, 2), 2, -1])
+                terms = [mul(c(selfc), v(a))]
             r = rng.random()
             if r < 0.5:
                 terms.append(mul(self.coef(), v(rng.choice(fin))))
@@ -376,17 +398,25 @@ class SG:
             if i > 0 and rng.random() < 0.7:
                 self.features.add("acc-uses-acc")
                 terms.append(mul(v(rng.choice(fin)) if rng.random() < 0.5 else self.coef(), v(acc[0])))
+                if rng.random() < 0.3:
+                    self.features.add("acc*finite-monomial")
+                    terms.append(mul(c(F(1, 2)), mul(v(rng.choice(fin)), v(acc[0]))))
             e = terms[0]
             for t in terms[1:]:
                 e = add(e, t)
             r = rng.random()
             if r < 0.25:
                 self.features.add("acc-under-condition")
-                body.append(("if", [(("atom", v(rng.choice(fin)), "==", c(1)), [("assign", a, P.det(e))])], None))
+                f = rng.choice(fin)
+                body.append(("if", [(("atom", v(f), "==", c(1)), [("assign", a, P.det(e))])], None))
+                if f in fin_dep and selfc != 1:
+                    self.features.add("symbolic-base")
             elif r < 0.45:
                 self.features.add("acc-choice")
                 pr = self.prob()
                 body.append(("assign", a, ("choice", [(pr, e), (sub(c(1), pr), v(a))])))
+                if has_param(pr) and selfc != 1:
+                    self.features.add("symbolic-base")
             else:
                 body.append(("assign", a, P.det(e)))
         self.fin, self.acc = fin, acc
@@ -410,9 +440,9 @@ def dec(x):
     return Fraction(x)
 
 
-def coq_instance(kind, A, inst, pname):
-    """kind 'a': (dep, iota, Z) validators of the sensitivity recurrences; 'b': check_diffcf.
-    -> (definitions text, list of boolean terms)"""
+def coq_instance(kind, A, inst, pname, tag):
+    """kind 'a': validators of the sensitivity recurrences; 'b': check_diffcf.
+    -> (typed definitions, list of boolean terms); tag makes the names unique in a file"""
     cf = inst["cf"]
     gens = cf["gens"]
     kg = len(gens)
@@ -425,21 +455,34 @@ def coq_instance(kind, A, inst, pname):
     Fs = cl([exppoly.coq_epoly([(dec(b), [dec(co) for co in cs]) for b, cs in f]) for f in cf["general"]])
     sp = cl([cl([exppoly.coq_elem(dec(co)) for co in row]) for row in cf["specials"]])
     k = len(inst["Pv"])
+    R = f"R{tag}"
+    defs = (f"Definition {R} : cring := {ring}.\n"
+            f"Definition PA{tag} : list (list (list {R})) := {PA}.\n"
+            f"Definition Pv{tag} : list (list {R}) := {Pv}.\n"
+            f"Definition x{tag} : {R} := {x}.\n"
+            f"Definition F{tag} : list (epoly {R}) := {Fs}.\n"
+            f"Definition sp{tag} : list (list {R}) := {sp}.\n")
+    PA, Pv, x, Fs, sp = f"PA{tag}", f"Pv{tag}", f"x{tag}", f"F{tag}", f"sp{tag}"
     if kind == "b":
-        return [f"check_diffcf (R := {ring}) {k} {PA} {Pv} {x} {Fs} {sp}"]
+        return defs, [f"check_diffcf {k} {PA} {Pv} {x} {Fs} {sp}"]
     S = cl([cl([el(y) for y in row]) for row in inst["S"]])
     s = cl([el(y) for y in inst["s"]])
     dep = cl(["true" if d else "false" for d in A["dep"]])
-    iota = "(" + cl([str(i) for i in A["iota"]]) + " : list nat)"
+    iota = cl([str(i) + "%nat" for i in A["iota"]])
     Z = cl(["false"] * k + ["false" if d else "true" for d in A["dep"]])
-    R = f"(R := {ring})"
-    return [
-        f"dep_closed {R} {dep} {PA} {Pv}",
-        f"check_sub {R} (evalM (model_ext {dep} {PA}) {x}) (evalV (model_init {Pv}) {x}) {S} {s} {iota} (map (fun _ => false) (model_init {R} {Pv}))",
-        f"check_sub {R} (block (evalM {PA} {x}) (evalM (derivM {PA}) {x})) (evalV {Pv} {x} ++ evalV (derivV {Pv}) {x}) {S} {s} {iota} {Z}",
-        f"check_solution {R} {S} {s} {Fs} {sp}",
-        f"check_sens_model {R} {dep} {PA} {Pv} {x} {S} {s} {iota} {Fs} {sp}",
-        f"check_sens_direct {R} {k} {PA} {Pv} {x} {S} {s} {iota} {Z} {Fs} {sp}",
+    defs += (f"Definition S{tag} : list (list {R}) := {S}.\n"
+             f"Definition s{tag} : list {R} := {s}.\n"
+             f"Definition dep{tag} : list bool := {dep}.\n"
+             f"Definition iota{tag} : list nat := {iota}.\n"
+             f"Definition Z{tag} : list bool := {Z}.\n")
+    S, s, dep, iota, Z = f"S{tag}", f"s{tag}", f"dep{tag}", f"iota{tag}", f"Z{tag}"
+    return defs, [
+        f"dep_closed {dep} {PA} {Pv}",
+        f"check_sub (evalM (model_ext {dep} {PA}) {x}) (evalV (model_init {Pv}) {x}) {S} {s} {iota} (map (fun _ => false) (model_init {Pv}))",
+        f"check_sub (block (evalM {PA} {x}) (evalM (derivM {PA}) {x})) (evalV {Pv} {x} ++ evalV (derivV {Pv}) {x}) {S} {s} {iota} {Z}",
+        f"check_solution {S} {s} {Fs} {sp}",
+        f"check_sens_model {dep} {PA} {Pv} {x} {S} {s} {iota} {Fs} {sp}",
+        f"check_sens_direct {k} {PA} {Pv} {x} {S} {s} {iota} {Z} {Fs} {sp}",
     ]
 
 
@@ -454,7 +497,8 @@ def run_validators(ctx, cases):
     for j in range(0, len(cases), per):
         body = COQ_HDR
         for i, cs in enumerate(cases[j:j + per]):
-            body += f"Definition c{i} : list bool := [" + ";\n  ".join(cs["terms"]) + "].\n"
+            defs, terms = cs["mk"](f"_{i}")
+            body += defs + f"Definition c{i} : list bool := [" + ";\n  ".join(terms) + "].\n"
         body += "".join(f"Eval vm_compute in c{i}.\n" for i in range(len(cases[j:j + per])))
         files.append((f"c10_{j // per}", body))
     res = lib.coq_run_many(ctx, files, timeout=300)
@@ -512,16 +556,27 @@ def run(ctx):
     N = ctx.pick(4, 6)
     KMAX = ctx.pick(13, 22)
     n_rand = ctx.pick(5, 60)
-    n_gen = ctx.pick(2, 30)
+    n_gen = ctx.pick(1, 30)
     progs = list(corpus())
     if ctx.quick:
-        # rotate a part of the corpus out to stay inside the time budget, deterministically by seed
-        keep = set(range(len(progs)))
-        progs = [pg for i, pg in enumerate(progs) if i in keep]
-    for _ in range(n_rand):
+        # Polar's own solving is slow when a power's base is symbolic: one goal for those programs
+        progs = [(p, goals[:1] if "symbolic-base" in tag else goals[:2], tag) for p, goals, tag in progs]
+    n_sym = ctx.pick(1, 15)
+    while n_rand > 0 or n_sym > 0:
         g = SG(ctx.rng)
         p = g.program()
-        progs.append((p, g.goals(), "random:" + "+".join(sorted(g.features))))
+        if not used_params(p):
+            continue
+        if "symbolic-base" in g.features:
+            if n_sym == 0:
+                continue
+            n_sym -= 1
+            progs.append((p, g.goals()[:1], "random:" + "+".join(sorted(g.features))))
+        else:
+            if n_rand == 0:
+                continue
+            n_rand -= 1
+            progs.append((p, g.goals(), "random:" + "+".join(sorted(g.features))))
     tries = 0
     while n_gen > 0 and tries < 400:
         tries += 1
@@ -530,7 +585,7 @@ def run(ctx):
         if not used_params(p):
             continue
         gl = [m for m in g.goals(2) if any(x.startswith("a") for x in m)][:1] or g.goals(1)
-        progs.append((p, gl, "gen.G:" + "+".join(sorted(g.features))))
+        progs.append((p, gl, "gen.G:symbolic-base+" + "+".join(sorted(g.features))))
         n_gen -= 1
     # points: the analysed parameter takes two values, the other parameter is fixed
     P0S = [F(1, 3), F(3, 5)]
@@ -548,7 +603,13 @@ def run(ctx):
                 tasks.append({"kind": "sens", "text": text, "goal": gen.goal_text(m), "param": pname, "points": pts,
                               "nvals": N + 1, "timeout": 100})
                 meta.append((pi, pname, m))
+    order = sorted(range(len(tasks)), key=lambda i: 0 if "symbolic-base" in progs[meta[i][0]][2] else 1)
+    tasks = [tasks[i] for i in order]
+    meta = [meta[i] for i in order]
     results = lib.run_tasks(tasks, timeout=100)
+    print(f"[C10] polar tasks: {len(tasks)} in {ctx.elapsed():.0f}s", flush=True)
+    ctx.coverage["slowest_tasks_s"] = sorted([(r.get("seconds", -1), r.get("seconds_a", -1), progs[m[0]][2], t["goal"], t["param"])
+                                               for m, t, r in zip(meta, tasks, results)], reverse=True)[:6]
     # ---- oracle: one interpolation family per (program, parameter) ----
     ofiles, omap = [], {}
     for pi, (p, goals, tag) in enumerate(progs):
@@ -571,6 +632,7 @@ def run(ctx):
             omap[(pi, pname)] = {"bounds": bounds, "N": Nn, "nodes": nodes, "file": f"orc_{pi}_{pname}", "fixed": fixed}
             ofiles.append((f"orc_{pi}_{pname}", oracle_file(p, goals, pname, fixed, nodes, Nn)))
     oouts = lib.coq_run_many(ctx, ofiles, timeout=240)
+    print(f"[C10] oracle files: {len(ofiles)} done at {ctx.elapsed():.0f}s", flush=True)
     for key, om in omap.items():
         if "skip" in om:
             continue
@@ -662,8 +724,9 @@ def run(ctx):
                 # (i) validators
                 if "cf" in inst and "PA" in inst:
                     try:
-                        terms = coq_instance(meth, R, inst, pname)
-                        cases.append({"terms": terms, "meth": meth, "text": text, "goal": gname, "param": pname, "point": inst["point"],
+                        mk = (lambda tg, meth=meth, R=R, inst=inst, pname=pname: coq_instance(meth, R, inst, pname, tg))
+                        mk("_t")
+                        cases.append({"mk": mk, "meth": meth, "text": text, "goal": gname, "param": pname, "point": inst["point"],
                                       "bad": bad, "R": R, "inst": inst})
                     except Exception as e:  # noqa
                         stat["not-printable"] = stat.get("not-printable", 0) + 1
@@ -684,6 +747,7 @@ def run(ctx):
                 else:
                     n_agree += 1
     run_validators(ctx, cases)
+    print(f"[C10] validator cases: {len(cases)} done at {ctx.elapsed():.0f}s", flush=True)
     for cs in cases:
         ctx.coverage["obligations"] += 1
         b = cs["bools"]
